@@ -167,6 +167,16 @@ Proof.
   destruct (stmsi_getters t H) as (_ & C & D & E & _). repeat split; assumption.
 Qed.
 
+(* GetMobileIdentity on a 5G-S-TMSI returns the full 5G-S-TMSI text (finding F25, fixed by c23cc0d: it used to
+   answer a.Get5GTMSI(), the 32-bit 5G-TMSI only) *)
+Theorem C12_stmsi_mobile_identity : forall t, stmsi_ok t ->
+  MI_GetMobileIdentity (stmsi_wire t) = Ok (stmsi_text t, s_5GSTMSI).
+Proof. exact stmsi_mobile_identity. Qed.
+
+Example C12_stmsi_mobile_identity_example :   (* the F25 witness f4 fe 00 00 00 00 01 *)
+  MI_GetMobileIdentity [244; 254; 0; 0; 0; 0; 1] = Ok ([102; 101; 48; 48; 48; 48; 48; 48; 48; 48; 48; 49], s_5GSTMSI).
+Proof. vm_compute. reflexivity. Qed.
+
 Example C12_stmsi_example :
   let t := {| t_set := 1016; t_pointer := 0; t_tmsi := 1 |} in
   stmsi_ok t /\ stmsi_wire t = [244; 254; 0; 0; 0; 0; 1] /\
@@ -254,6 +264,28 @@ Proof. exact AmfIdToNasWithError_total. Qed.
 Theorem C12_total_AmfIdToNas : forall s, is_total (AmfIdToNas s).
 Proof. exact AmfIdToNas_total. Qed.
 
+(* PlmnIDToNas has no error result; its documented domain is a 3-character MCC and a 2/3-character MNC *)
+Theorem C12_total_PlmnIDToNas_partial : forall mcc mnc,
+  bytes_ok mcc -> bytes_ok mnc -> (3 <= length mcc)%nat -> (2 <= length mnc)%nat -> is_total (PlmnIDToNas mcc mnc).
+Proof. exact PlmnIDToNas_total. Qed.
+
+(* OBSERVATION (outside the property as read here, the helper has no error result): a non-digit in the text
+   is logged and encoded as digit 0, e.g. MCC "2a8" gives the octets of MCC 208 *)
+Example C12_PlmnIDToNas_nondigit_observation :
+  PlmnIDToNas [50; 97; 56] [57; 51] = Ok [2; 248; 57] /\ PlmnIDToNas [50; 48; 56] [57; 51] = Ok [2; 248; 57].
+Proof. split; vm_compute; reflexivity. Qed.
+
+(* malformed octets are signalled by the error result exactly when they are too short *)
+Theorem C12_suci_err_iff : forall buf,
+  SuciToStringWithError buf = Err <->
+  match buf with
+  | [] => True
+  | b0 :: _ => if N.shiftr (N.land b0 240) 4 =? 1 then (length buf < 2)%nat else (length buf < 9)%nat
+  end.
+Proof. exact SuciToStringWithError_err_iff. Qed.
+Theorem C12_pei_err_iff : forall buf, PeiToStringWithError buf = Err <-> buf = [].
+Proof. exact PeiToStringWithError_err_iff. Qed.
+
 (* ===== C14 / finding F9: the nasType.MobileIdentity5GS text getters index a.Buffer unguarded.
    Each is total exactly from a minimal Buffer length on (_partial) and panics on some Buffer of every
    shorter length (_refuted).  FULL statement (false today): forall buf, is_total (getter buf). ===== *)
@@ -340,6 +372,7 @@ Print Assumptions C12_guti_getters.
 Print Assumptions C12_suci_text.
 Print Assumptions C12_suci_nai_text.
 Print Assumptions C12_stmsi_text.
+Print Assumptions C12_stmsi_mobile_identity.
 Print Assumptions C12_pei_text.
 Print Assumptions C12_invalid_text_err.
 Print Assumptions C12_accessors_consistent.
@@ -355,6 +388,9 @@ Print Assumptions C12_total_GutiToNasWithError.
 Print Assumptions C12_total_GutiToNas.
 Print Assumptions C12_total_AmfIdToNasWithError.
 Print Assumptions C12_total_AmfIdToNas.
+Print Assumptions C12_total_PlmnIDToNas_partial.
+Print Assumptions C12_suci_err_iff.
+Print Assumptions C12_pei_err_iff.
 Print Assumptions C12_total_GetTypeOfIdentity_partial.
 Print Assumptions C12_total_GetTypeOfIdentity_refuted.
 Print Assumptions C12_total_GetMobileIdentity_partial.
